@@ -1216,3 +1216,87 @@ Proof.
     destruct (v_charset_exact ac an c) as ([X|X] & Y); [now apply Y|].
     rewrite X in E. inversion E; subst. destruct Hor; discriminate.
 Qed.
+
+(* ---- decorated occurrences: a non-word code point right after / before ------------------ *)
+
+(* A combining mark, a zero-width joiner, a variation selector ... is, for
+   str.lower and for sre, an ordinary character that is not a \w character.
+   Put right after (before) an occurrence of a signature it IS the surrounding
+   text's first (last) character, so the edge condition of the embedding
+   theorems holds on that side whatever the pattern is and whatever follows. *)
+Lemma last_word_snoc : forall cc k pw m, last_word cc pw (k ++ [m]) = cc_word cc m.
+Proof. intros cc k. induction k as [|x k IH]; intros pw m; cbn [app last_word]; auto. Qed.
+
+Lemma sig_mark_after : forall cc g s pre post m, sig_embed_ok cc g -> cc_word cc m = false ->
+  (sig_edge_free_l g = true \/ last_word cc false pre = false) ->
+  sig_matches cc g s = true -> sig_matches cc g (pre ++ s ++ m :: post) = true.
+Proof.
+  intros cc g s pre post m EO W L H. apply sig_embed_sided; auto; right; cbn [head_word]; exact W.
+Qed.
+
+Lemma sig_mark_before : forall cc g s pre post m, sig_embed_ok cc g -> cc_word cc m = false ->
+  (sig_edge_free_r g = true \/ head_word cc post = false) ->
+  sig_matches cc g s = true -> sig_matches cc g (pre ++ m :: s ++ post) = true.
+Proof.
+  intros cc g s pre post m EO W R H.
+  change (pre ++ m :: s ++ post) with (pre ++ [m] ++ s ++ post). rewrite app_assoc.
+  apply sig_embed_sided; auto; right; rewrite last_word_snoc; exact W.
+Qed.
+
+Lemma sig_mark_both : forall cc g s pre post m1 m2, sig_embed_ok cc g ->
+  cc_word cc m1 = false -> cc_word cc m2 = false ->
+  sig_matches cc g s = true -> sig_matches cc g (pre ++ m1 :: s ++ m2 :: post) = true.
+Proof.
+  intros cc g s pre post m1 m2 EO W1 W2 H.
+  apply (sig_mark_before cc g (s) pre (m2 :: post) m1 EO W1); auto; right; cbn [head_word]; exact W2.
+Qed.
+
+(* the decoration characters of the generator alphabet, as Python classifies them *)
+Definition py_marks : list Z := [768; 769; 771; 776; 803; 807; 8413; 12441; 65039; 8203; 8205; 173].
+
+Lemma py_marks_plain : forallb (fun m => negb (cc_word py_cc m) && negb (cc_space py_cc m) &&
+                                         negb (cc_digit py_cc m) && (cc_fold py_cc m =? m)) py_marks = true.
+Proof. vm_compute. reflexivity. Qed.
+
+Lemma decorated_all :
+  (forall cc g s pre post m, sig_embed_ok cc g -> cc_word cc m = false ->
+     (sig_edge_free_l g = true \/ last_word cc false pre = false) ->
+     sig_matches cc g s = true -> sig_matches cc g (pre ++ s ++ m :: post) = true) /\
+  (forall cc g s pre post m, sig_embed_ok cc g -> cc_word cc m = false ->
+     (sig_edge_free_r g = true \/ head_word cc post = false) ->
+     sig_matches cc g s = true -> sig_matches cc g (pre ++ m :: s ++ post) = true) /\
+  (forall cc g s pre post m1 m2, sig_embed_ok cc g -> cc_word cc m1 = false -> cc_word cc m2 = false ->
+     sig_matches cc g s = true -> sig_matches cc g (pre ++ m1 :: s ++ m2 :: post) = true) /\
+  (forall cfg st c st' r,
+     mfilter cfg st c = (st', r) -> r_kind r = Scanned -> r_allowed r = false ->
+     (forall g, In g (r_matched r) -> sig_embed_ok (c_cc cfg) g) ->
+     forall st2 pre post m1 m2, same_rules st st2 ->
+     cc_word (c_cc cfg) m1 = false -> cc_word (c_cc cfg) m2 = false ->
+     r_allowed (snd (mfilter cfg st2 (pre ++ m1 :: c ++ m2 :: post))) = false /\
+     (((forall g, In g (r_matched r) -> sig_edge_free_l g = true) \/ last_word (c_cc cfg) false pre = false) ->
+      r_allowed (snd (mfilter cfg st2 (pre ++ c ++ m2 :: post))) = false)) /\
+  (forall cc st c st2 pre post m1 m2 vals2,
+     (forall g, In g (i_pats st) -> sig_embed_ok cc g) ->
+     i_threshold st <= max_level (scan cc (i_pats st) c) ->
+     i_pats st2 = i_pats st -> i_threshold st2 = i_threshold st ->
+     cc_word cc m1 = false -> cc_word cc m2 = false ->
+     snd (icheck cc vals2 st2 (pre ++ m1 :: c ++ m2 :: post)) = IRaised \/
+     exists r, snd (icheck cc vals2 st2 (pre ++ m1 :: c ++ m2 :: post)) = IOk r /\ ir_allowed r = false) /\
+  forallb (fun m => negb (cc_word py_cc m) && negb (cc_space py_cc m) &&
+                    negb (cc_digit py_cc m) && (cc_fold py_cc m =? m)) py_marks = true.
+Proof.
+  split; [exact sig_mark_after|]. split; [exact sig_mark_before|]. split; [exact sig_mark_both|].
+  split; [|split; [|exact py_marks_plain]].
+  - intros cfg st c st' r H K A EO st2 pre post m1 m2 S W1 W2.
+    destruct embed_stable_regex_all as (_ & E & _). split.
+    + change (pre ++ m1 :: c ++ m2 :: post) with (pre ++ [m1] ++ c ++ (m2 :: post)). rewrite app_assoc.
+      apply (E cfg st c st' r H K A EO st2 (pre ++ [m1]) (m2 :: post) S).
+      * right. rewrite last_word_snoc. exact W1.
+      * right. cbn [head_word]. exact W2.
+    + intros L. apply (E cfg st c st' r H K A EO st2 pre (m2 :: post) S L). right. cbn [head_word]. exact W2.
+  - intros cc st c st2 pre post m1 m2 vals2 EO L P T W1 W2.
+    change (pre ++ m1 :: c ++ m2 :: post) with (pre ++ [m1] ++ c ++ (m2 :: post)). rewrite app_assoc.
+    apply (i_embed_blocked cc st c st2 (pre ++ [m1]) (m2 :: post) vals2 EO L P T).
+    + rewrite last_word_snoc. exact W1.
+    + cbn [head_word]. exact W2.
+Qed.
